@@ -64,4 +64,15 @@ CHECKS = {
                 "are covered by correspondence/oracle only. Assumed: textwrap.fill, literal_eval, float/repr. Trusted: Lean kernel + 3 axioms, the harness.",
         "technique": "Lean 4 proof (substring-search and digit lemmas over faithful string models) + byte-exact differential correspondence + round-trip oracle",
     },
+    "C08": {
+        "text": "Lean theorems on the docstring-layer normalisers (ports of set_default_doc, extract_default, quote, the Optional[ wrap, the terminal "
+                "full stop): each guard is idempotent for all inputs, defaults carried in the prose never change the description, one fixpoint "
+                "round implies all further rounds (any n); unquote is proved NOT idempotent on a witness. The per-format fixpoint itself is "
+                "evaluated on the real emit -> render -> re-read -> parse pipeline for all 11 formats, 3-4 rounds, on interfaces that include "
+                "trigger words, non-suffix defaults and quoted strings; the model's docstring-rest hop is compared with the real one round by round.",
+        "note": "Partial: hop(hop ir) = hop ir is not proved per format (only the normaliser guards are); 25 narrowly-signed known findings record "
+                "where the unchanged code drifts (header whitespace in class/function/pydantic/sqlalchemy, Google/NumPy return entries, None defaults, ...). "
+                "Trusted: Lean kernel + 3 axioms, C01's correspondence for the model, the harness.",
+        "technique": "Lean 4 proof (idempotence lemmas over faithful string models) + multi-round differential oracle on the real pipeline",
+    },
 }
